@@ -47,7 +47,7 @@ fn run_crash(part: &mut Part, profiles: Vec<Profile>, cfgs: Vec<CrashCfg>) {
         part.machinery_errors.push("the fs trace does not explain the directory content (a file-system access bypasses the shim?)".into());
     }
     if part.stats.counters.get("power_loss_image_cap_hit").copied().unwrap_or(0) > 0 {
-        part.caps_hit.push(format!("power-loss images per crash point capped at {}", if TINY { 4096 } else { 64 }));
+        part.caps_hit.push(format!("power-loss images: at some crash points the per-file combinations exceeded {} and were reduced to the two corners plus one file at a time", if TINY { 1024 } else { 64 }));
     }
     let prev = part.bounds.clone();
     part.bounds = json!({
